@@ -224,8 +224,8 @@ func (r *Replayer) Run(idx int, b *Behaviour) error {
 				select {
 				case x := <-ch:
 					h, err, crashed = x.h, x.err, x.crashed
-				case <-time.After(60 * time.Second):
-					r.miss(k, "ingestion-blocked", fmt.Sprintf("Add of header %d returns while a notification channel is blocked (%d headers stored so far)", st.ID, k), "no answer within 60 s")
+				case <-time.After(180 * time.Second):
+					r.miss(k, "ingestion-blocked", fmt.Sprintf("Add of header %d returns while a notification channel is blocked (%d headers stored so far)", st.ID, k), "no answer within 180 s")
 					return errWedged
 				}
 			}
